@@ -151,7 +151,7 @@ pub fn val_to_json(v: &Value) -> J {
         Value::String(s) => json!({"k":"str","s":cps(s)}),
         Value::Symbol(s) => json!({"k":"sym","s":cps(s)}),
         Value::Keyword(s) => json!({"k":"kw","s":cps(s)}),
-        Value::Bytes(b) => json!({"k":"bytes","b":bytes_j(b)}),
+        Value::Bytes(b) => json!({"k":"bytes","bv":bytes_j(b)}),
         Value::Vector(es) => json!({"k":"vec","e": es.iter().map(val_to_json).collect::<Vec<_>>()}),
         Value::Cons(_) => {
             let mut cars = Vec::new();
@@ -184,7 +184,7 @@ pub fn json_to_val(j: &J) -> Value {
         "str" => Value::string(j_string(&j["s"])),
         "sym" => Value::symbol(j_string(&j["s"])),
         "kw" => Value::keyword(j_string(&j["s"])),
-        "bytes" => Value::bytes(j_bytes(&j["b"])),
+        "bytes" => Value::bytes(j_bytes(&j["bv"])),
         "vec" => Value::vector(j["e"].as_array().unwrap().iter().map(json_to_val)),
         "cons" => {
             let mut cars = Vec::new();
